@@ -18,12 +18,15 @@ from vakt.rules import Eq, Any
 MODULE = 'Props.C09'
 THEOREMS = ['Vakt.C09.decode_no_uid_refused', 'Vakt.C09.decode_type_ignored', 'Vakt.C09.decode_missing_effect_deny',
             'Vakt.C09.decode_empty_effect_deny', 'Vakt.C09.decode_legacy_rules_to_context', 'Vakt.C09.decode_context_wins',
-            'Vakt.C09.decode_unknown_field_refused', 'Vakt.C09.value_roundtrip', 'Vakt.C09.policy_roundtrip_partial']
+            'Vakt.C09.decode_unknown_field_refused', 'Vakt.C09.value_roundtrip', 'Vakt.C09.policy_roundtrip_partial',
+            'Vakt.C09.rule_classes_distinct', 'Vakt.C09.rule_roundtrip', 'Vakt.C09.rule_meaning_preserved',
+            'Vakt.C09.elem_roundtrip', 'Vakt.C09.policy_roundtrip', 'Vakt.C09.policy_meaning_preserved',
+            'Vakt.C09.stored_type_irrelevant']
+EXTRA_IMPORTS = ['Props.C09Codec']
 FLOOR = {'quick': 300, 'thorough': 5000}
-ASSUMPTIONS = ['the round-trip theorem covers the value codec (tuple / nested containers), the class-name table and the '
-               'document-level decoding logic; that jsonpickle / pickle / SQLAlchemy / the client fakes reproduce each rule '
-               'object from its encoding is decided by the correspondence (meaning compared on derived probe inquiries), '
-               'not proved (policy_roundtrip_partial)',
+ASSUMPTIONS = ['the codec theorems (rule_roundtrip, policy_roundtrip) are about the JSON text jsonpickle writes, as modelled in '
+               'RuleCodec and compared with the real text on every run; pickle, SQLAlchemy rows and the client fakes are '
+               'judged by the direct oracle (meaning compared on derived probe inquiries), not modelled',
                'Policy subclasses with custom tags lose their class through SQL / Mongo / Redis-JSON by construction of '
                'those paths and are outside the domain']
 PATHS = ['json', 'pickle', 'sqlite', 'redis-json', 'redis-pickle', 'mongo', 'mongo40',
@@ -236,6 +239,7 @@ def run(ctx):
             out.samples.append({'policy': repr(p)[:400], 'probes': len(qs), 'paths': PATHS,
                                 'matching_rows': sum(1 for r in m0 if all(x is True for x in r))})
     _decoding_clauses(ctx, out, rng)
+    _codec_correspondence(ctx, out, rng)
     out.rule = ('policies aimed at a probe inquiry (string- and rule-based, nested compositions, tuples, sets, regex rules, '
                 'non-ASCII text, the same rule instance / list object used in several places, tuple-valued fields) pushed '
                 'through JSON text, pickle, SQL rows on SQLite, fake-Redis with both serializers and fake-Mongo (4.0 / 4.4) '
@@ -243,6 +247,121 @@ def run(ctx):
                 'asked the same 8 derived probes under all four checkers (per-field fits + context); plus generated JSON '
                 'documents with missing / extra / legacy fields decoded by Policy.from_json and by the model')
     return out
+
+
+def _jkey(x):
+    return json.dumps(x, sort_keys=True, ensure_ascii=False)
+
+
+def _sort_sets_json(x):
+    """a decoded JSON document with the member list of every py/set in one canonical order"""
+    if isinstance(x, dict):
+        if set(x) == {'py/set'} and isinstance(x['py/set'], list):
+            return {'py/set': sorted((_sort_sets_json(y) for y in x['py/set']), key=_jkey)}
+        return {k: _sort_sets_json(v) for k, v in x.items()}
+    if isinstance(x, list):
+        return [_sort_sets_json(y) for y in x]
+    return x
+
+
+class _Dup(Exception):
+    pass
+
+
+def _sort_sets_spec(r):
+    """the abstract rule with set-valued arguments in the same canonical order; _Dup if Python's set() would merge
+    two of the members (1 / 1.0 / True): the model keeps a list and is not compared then"""
+    import jsonpickle
+    t = r[0]
+    if t in ('in', 'nin', 'allin', 'allnin', 'anyin', 'anynin'):
+        data = list(r[1])
+        if len(set(data)) != len(data):
+            raise _Dup()
+        return (t, sorted(data, key=lambda v: _jkey(json.loads(jsonpickle.encode(v)))))
+    if t in ('and', 'or'):
+        return (t, [_sort_sets_spec(x) for x in r[1]])
+    if t == 'not':
+        return (t, _sort_sets_spec(r[1]))
+    return r
+
+
+def _sort_sets_policy(p):
+    def elem(e):
+        if e[0] == 'R':
+            return ('R', _sort_sets_spec(e[1]))
+        if e[0] == 'A':
+            return ('A', [(k, _sort_sets_spec(a)) for k, a in e[1]])
+        return e
+    q = dict(p)
+    for f in ('subjects', 'resources', 'actions'):
+        q[f] = [elem(e) for e in p[f]]
+    q['context'] = [(k, _sort_sets_spec(a)) for k, a in p['context']]
+    return q
+
+
+def _codec_correspondence(ctx, out, rng):
+    """the model's rule / policy codec (RuleCodec.enc*, dec*) against what vakt really writes and reads:
+    POLENC: model encoding of the policy == the JSON document Policy.to_json() writes (key order and set member
+    order canonicalised, stored type ignored); POLDEC: the model's decoding of that real document == the policy;
+    RULEENC / RULEDEC: the same for single deeply nested rules"""
+    lines, meta = [], []
+    for _ in range(ctx.budget(300, 8000)):
+        if rng.random() < 0.6:
+            p, _qs = aimed_case(rng)
+            try:
+                p = _sort_sets_policy(p)
+                obj = proto.build_policy(p)
+                doc = _sort_sets_json(json.loads(obj.to_json()))
+                pl = polcase.pol_line(p, obj)
+                d0 = dict(doc)
+                d0['type'] = None
+                lines += ['POLENC ' + pl, 'CANON ' + proto.enc_value(d0),
+                          'POLDEC 60 62 ' + proto.enc_value(doc), 'ECHO pol ' + pl]
+                meta.append(('policy', repr(p), _jkey(doc)[:600]))
+            except (_Dup, proto.ProtoError, TypeError):
+                out.count('codec:skipped')
+            except Exception:
+                out.count('codec:unconstructible')
+        else:
+            q = gen_inquiry(rng)
+            r = gen_rule(rng, q[pick(rng, ['subject', 'action', 'resource'])], q, depth=pick(rng, [1, 2, 3, 4]))
+            if not json_safe_rule(r):
+                continue
+            try:
+                r = _sort_sets_spec(r)
+                obj = proto.build_rule(r)
+                doc = _sort_sets_json(json.loads(obj.to_json()))
+                rl = proto.enc_rule(r)
+                lines += ['RULEENC ' + rl, 'CANON ' + proto.enc_value(doc), 'RULEDEC ' + proto.enc_value(doc), 'ECHO rule ' + rl]
+                meta.append(('rule', repr(r), _jkey(doc)[:600]))
+            except (_Dup, proto.ProtoError, TypeError):
+                out.count('codec:skipped')
+            except Exception:
+                out.count('codec:unconstructible')
+    res = ctx.driver.run(lines) if ctx.driver else []
+    for i, (kind, spec, doc) in enumerate(meta):
+        if not res:
+            break
+        enc, canon, dec, echo = res[4 * i: 4 * i + 4]
+        if 'bad-op' in (enc, canon, dec, echo):
+            raise Broken('driver rejected a codec line: %s' % lines[4 * i + [enc, canon, dec, echo].index('bad-op')][:300])
+        out.evaluations += 1
+        out.count('codec:' + kind)
+        if enc == 'unmodelled':
+            out.unmodelled += 1
+            continue
+        out.traces += 1
+        why = None
+        if enc != canon:
+            why = 'the model writes %s, vakt writes %s' % (enc[:300], canon[:300])
+        elif dec == 'none' or dec.split(' ', 1)[1] != echo.split(' ', 2)[2]:
+            why = 'the model reads the document vakt wrote as %s, the %s is %s' % (dec[:300], kind, echo[:300])
+        if why:
+            f = Failure('disagreement', {'kind': kind, 'spec': spec, 'document': doc}, doc, enc[:400], why,
+                        'Vakt.C09.policy_roundtrip / rule_roundtrip (codec model vs jsonpickle)', line=lines[4 * i])
+            f.signature = 'codec:' + kind
+            f.weak = True           # the JSON text itself is not prescribed by the property, only what is read back
+            out.failures.append(f)
 
 
 def _decoding_clauses(ctx, out, rng):
